@@ -7,7 +7,7 @@ import z3
 
 from .values import *  # noqa
 from .repo import Repo
-from .engine import Engine, explore
+from .engine import Engine, explore, frontier
 from .symex import Frame
 from .sources import EngineSource, NS, Skip
 from .spec import SKIP
@@ -125,7 +125,7 @@ def _module_for(case, repo):
     return f.module if hasattr(f, "module") else f
 
 
-def verify_case(case, repo=None, summaries_lib=None, seed=0, scope=None):
+def verify_case(case, repo=None, summaries_lib=None, seed=0, scope=None, initial=None):
     repo = repo or Repo()
     summaries_lib = summaries_lib or {"summaries": {}, "loops": {}}
     res = CaseResult(case.name)
@@ -151,7 +151,7 @@ def verify_case(case, repo=None, summaries_lib=None, seed=0, scope=None):
                     e.ctx["inp"].__dict__["ghost"] = e.ctx["ghost"]
                 ctxs.append(e.ctx)
 
-        paths = explore(eng, run)
+        paths = explore(eng, run, initial=initial)
         res.paths = len(paths)
         raises = dict(case.raises)
         n_return = 0
@@ -244,6 +244,20 @@ def verify_case(case, repo=None, summaries_lib=None, seed=0, scope=None):
         res.error = "crash: " + "".join(traceback.format_exception(type(ex), ex, ex.__traceback__))[-3000:]
     res.seconds = time.time() - t0
     return res
+
+
+def case_frontier(case, repo, summaries_lib, seed, scope, depth):
+    """decision prefixes partitioning the path space of the case (see engine.frontier)."""
+    eng = make_engine(case, repo, summaries_lib, seed, concrete=scope is not None)
+    eng.concrete_mode = scope is not None
+
+    def run(e):
+        e.ctx = {}
+        S = EngineSource(e)
+        S.scope = scope
+        return run_case_call(case, e, S)
+
+    return frontier(eng, run, depth)
 
 
 def _tobool(c):
